@@ -65,7 +65,6 @@ def acyclification(
         # in the strongly-connected component
         scomp_parents = set()
         scomp_c_components = set()
-        scomp_children = []
 
         for node in comp:
             # get any predecessors of SC
@@ -80,23 +79,19 @@ def acyclification(
                     continue
                 scomp_c_components.add(nbr)
 
-            # keep track of any edges pointing out of the SC
-            for child in directed_G.successors(node):
-                if child in comp:
-                    continue
-                scomp_children.append((node, child))
+        # first remove all directed edges inside the cycle; the nodes themselves and
+        # their edges to other components stay, so that components processed earlier
+        # or later are not affected
+        G.remove_edges_from(
+            [(u, v) for u in comp for v in directed_G.successors(u) if v in comp],
+            directed_edge_type,
+        )
 
-        # first remove all nodes in the cycle
-        G.remove_nodes_from(comp)
-
-        # add them back in as a fully connected bidirected graph
+        # make the component a fully connected bidirected graph
         bidirected_fc_G = nx.complete_graph(comp)
         if bidirected_edge_type not in G.edge_types:
             G.add_edge_type(nx.Graph(), bidirected_edge_type)
         G.add_edges_from(bidirected_fc_G.edges, bidirected_edge_type)
-
-        # add back the children
-        G.add_edges_from(scomp_children, directed_edge_type)
 
         # make all variables connect to the strongly connected component
         for node in comp:
